@@ -73,6 +73,7 @@ class Unit:
         self.struct_names = None    # None = all
         self.drop_traits = set()
         self.free_fns = []          # (module, name)
+        self.trait_extras = {}      # trait -> dict(decl_items, requires{method: [..]}, impl_items(im) -> text)
 
     # ------------------------------------------------------------------
     def select(self, *sels):
@@ -159,8 +160,7 @@ class Unit:
         while changed:
             changed = False
             for tn in list(used_traits):
-                for b in self.trait_supers(src.traits[tn]):
-                    bn = trait_name(b)
+                for bn in [trait_name(b) for b in self.trait_supers(src.traits[tn])] + self.trait_generic_bound_traits(src.traits[tn]):
                     if bn not in used_traits:
                         used_traits[bn] = set()
                         changed = True
@@ -200,22 +200,42 @@ class Unit:
 
     # ------------------------------------------------------------------
     def strip_generic_bounds(self, g):
-        """'<P: EuclideanSpace, Rhs = Self>' -> '<P, Rhs = Self>'"""
+        """'<P: EuclideanSpace + Foo, Rhs = Self>' -> '<P: EuclideanSpace, Rhs = Self>' (only crate-trait bounds are kept)"""
         if not g:
             return ''
         inner = g.strip()[1:-1]
         keep = []
         for x in split_top(inner):
+            default = ''
+            if '=' in x and not re.search(r'<[^>]*=', x.split('=')[0]):
+                x, default = x.split('=', 1)
+                default = ' = ' + default.strip()
             nm = x.split(':')[0].strip()
-            if nm.split('=')[0].strip() in self.subst:
+            if nm in self.subst:
                 continue
-            if '=' in x and ':' not in x.split('=')[0]:
-                keep.append(x)
-            elif '=' in x:
-                keep.append(nm + ' =' + x.split('=', 1)[1])
-            else:
-                keep.append(nm)
+            bounds = []
+            if ':' in x:
+                for b in split_top(x.split(':', 1)[1], '+'):
+                    if trait_name(b.strip()) in self.src.traits:
+                        bounds.append(subst_text(b.strip(), self.subst))
+            keep.append(nm + (': ' + ' + '.join(bounds) if bounds else '') + default)
         return '<' + ', '.join(keep) + '>' if keep else ''
+
+    def trait_generic_bound_traits(self, tr: Trait):
+        src = self.src
+        t = src.p.toks
+        lo, hi = tr.header_toks
+        i = lo + 2
+        out = []
+        if t[i].text == '<':
+            j = src.p._skip_angle(i, hi)
+            g = norm(src.p.text(i, j))
+            for x in split_top(g.strip()[1:-1]):
+                if ':' in x:
+                    for b in split_top(x.split('=')[0].split(':', 1)[1], '+'):
+                        if trait_name(b.strip()) in src.traits:
+                            out.append(trait_name(b.strip()))
+        return out
 
     def trait_supers(self, tr: Trait):
         """crate-trait bounds on Self (supertraits and `where Self: ..` clauses); everything else is dropped"""
@@ -259,11 +279,20 @@ class Unit:
         sup = ['Sized'] + self.trait_supers(tr)
         head = 'pub trait %s%s: %s {\n' % (tr.name, self.strip_generic_bounds(g), ' + '.join(sup))
         body = []
+        ex = self.trait_extras.get(tr.name, {})
+        if ex.get('decl_items'):
+            body.append('    ' + ex['decl_items'] + '\n')
         for it in tr.items:
             if isinstance(it, Assoc) and it.kind == 'type':
                 body.append('    type %s;\n' % it.name)
             elif isinstance(it, Fn) and it.name in methods:
-                body.append('    ' + self.fn_decl(it, None) + ';\n')
+                req = ex.get('requires', {}).get(it.name)
+                decl = self.fn_decl(it, None)
+                if req:
+                    names = self.param_names(it)
+                    req = [re.sub(r'\$([0-9]+)', lambda m: names[int(m.group(1))], r) for r in req]
+                    decl += '\n        requires ' + ', '.join(req)
+                body.append('    ' + decl + ';\n')
         return head + ''.join(body) + '}\n'
 
     def fn_decl(self, f: Fn, c: Optional[Contract], ret_name=None):
@@ -352,6 +381,12 @@ class Unit:
                 raise ExtractError('un-contracted function in unit %s: %s :: %s' % (self.name, im.header, f.name))
             if tn in OP_TRAITS and c.spec is not None:
                 spec_impl = self.spec_impl(im, f, c)
+            if tn == 'From' and f.name == 'from' and c.spec is not None:
+                g = subst_text(impl_generics(im, self.subst), self.subst)
+                st = subst_text(im.selfty, self.subst)
+                src_ty = subst_text(trait_args(im.trait), self.subst)
+                spec_impl = ('impl%s FromSpecImpl<%s> for %s {\n    open spec fn obeys_from_spec() -> bool { true }\n'
+                             '    open spec fn from_spec(v: %s) -> %s { %s }\n}\n') % (g, src_ty, st, src_ty, st, c.spec)
             if tn == 'PartialEq' and f.name == 'eq' and c.spec is not None:
                 g = subst_text(impl_generics(im, self.subst), self.subst)
                 st = subst_text(im.selfty, self.subst)
@@ -366,6 +401,9 @@ class Unit:
         add(header + ' {\n')
         for kind, text in body_parts:
             add(text)
+        ex = self.trait_extras.get(tn, {})
+        if ex.get('impl_items'):
+            add('    ' + ex['impl_items'](im) + '\n')
         for f, c, is_default in fn_texts:
             add(self.emit_fn(im, f, nl[0], c=c, is_default=is_default))
         add('}\n')
@@ -394,7 +432,7 @@ class Unit:
                 if k >= len(names):
                     raise ExtractError('contract of %s refers to parameter $%d but the signature has %d' % (f.name, k, len(names)))
                 return names[k]
-            return re.sub(r'\$([0-9])', r, t)
+            return re.sub(r'\$([0-9]+)', r, t)
         c2 = copy.copy(c)
         c2.requires = [sub(x) for x in c.requires]
         c2.ensures = [sub(x) for x in c.ensures]
